@@ -8,6 +8,7 @@ from fractions import Fraction
 import networkx as nx
 import numpy as np
 
+from harness import step_replay as R
 from harness.step_replay import (CUS, LID, POS, T, TID, lookups_ok, partition_ok, same_graph, same_history,
                                  same_lookups, snapshot, tracklet_components, _brief)
 
@@ -241,11 +242,12 @@ def replay(f):
                 "C11.segmentation_unchanged": np.array_equal(S0["seg"], S1["seg"]),
                 "C11.no_refresh": len(emitted) == 0,
                 "C20.refused_emits_none": len(emitted) == 0,
+                "C20.signal_delivers_after_refusal": R._signal_delivers(tr, emitted),
             }
             if ob in table:
                 return (not table[ob]), f"refused with {type(exc).__name__}: {exc}; pre={_brief(S0)} post={_brief(S1)}"
             return False, f"refused ({type(exc).__name__}: {exc}); obligation {ob} is about an accepted edit"
-        if ob.startswith("C11") or ob == "C20.refused_emits_none":
+        if ob.startswith("C11") or ob in ("C20.refused_emits_none", "C20.signal_delivers_after_refusal"):
             return False, "accepted"
         g1 = tr.graph
         detail = f"pre={_brief(S0)} seg0={S0['seg'].tolist()} post={_brief(S1)} seg1={S1['seg'].tolist()}"
@@ -393,6 +395,7 @@ def replay(f):
             "C07.undo_restores_array": np.array_equal(S0["seg"], S2["seg"]),
             "C07.redo_repaints_array": np.array_equal(S1["seg"], S3["seg"]),
             "C20.undo_one_refresh": len(e2) == 1 and len(e3) == 1,
+            "C20.signal_delivers_after_edit": R._signal_delivers(tr, emitted),
             "C01.inverse_applies": True,
         }
         if ob in table:
